@@ -220,6 +220,7 @@ _roles = None
 
 def norm_type(t):
     t = re.sub(r'\s+', '', t)
+    t = re.sub(r',(?=>)', '', t)
     return re.sub(r'\b(?:\w+::)+', '', t)
 
 
@@ -252,11 +253,18 @@ def _parse_struct(src, name):
         else:
             cur += ch
     out.append(cur)
+    aliases = {a: t for a, t in re.findall(r'^(?:pub(?:\([^)]*\))?\s+)?type\s+(\w+)\s*=\s*([^;]+);', src, re.M)}      # top-level non-generic `type X = ...;` of the same file
     fields = []
     for f in out:
         mm = re.match(r'\s*(?:pub(?:\([^)]*\))?\s+)?(\w+)\s*:\s*(.*)', f, re.S)
         if mm:
-            fields.append((mm.group(1), norm_type(mm.group(2))))
+            ty = mm.group(2)
+            for _ in range(4):
+                ty2 = re.sub(r'\b(\w+)\b(?!\s*(?:::|<))', lambda m_: aliases.get(m_.group(1), m_.group(1)), ty)
+                if ty2 == ty:
+                    break
+                ty = ty2
+            fields.append((mm.group(1), norm_type(ty)))
     return fields
 
 
